@@ -406,6 +406,17 @@ def run(ctx):
                     out = ("raise", ex)
                 judge(ctx, st, "Fault.%s(rpcid=)" % how, None, g, rid, None, True, None, cname, cfg, out)
                 ctx.case(("Fault.%s(rpcid=)" % how, code, gen.trepr(data), gen.trepr(rid), cname))
+                # ... and the SAME Fault object used again without an id (a module-level constant answering the next,
+                # id-less, request): the id forced for the previous message must not stick to it
+                try:
+                    got = json.loads(g.response()) if how == "response" else gen.jn(g.dump())
+                    out = ("ok", got, None)
+                except Exception as ex:
+                    out = ("raise", ex)
+                ctx.count("judged:fault-reused-without-id")
+                if out[0] == "ok" and isinstance(out[1], dict) and out[1].get("id") is not None:
+                    ctx.violate("forced-id-sticks-to-the-fault-object",
+                                {"api": "Fault." + how, "forced": rid, "config": cname}, {"second_message": out[1]})
 
     # random deep params / results
     nr = ctx.pick(15000, 300000)
